@@ -248,12 +248,18 @@ C14_ASSUME = MT_ASSUME + [
 CHECKS["C14"] = dict(
     quick=[R("h_event_mt", "bound=1 transports=0-3 hacts=1", variant="tsan", sched=True),
            R("h_raw", "bound=2", variant="tsan", sched=True),
-           R("h_work", "bound=1", variant="tsan", sched=True),
-           R("h_thread", "bound=2", variant="tsan", sched=True)],
+           R("h_work", "bound=1 progs=0,1,3,4,5,8 puts=0,2,3", variant="tsan", sched=True),
+           R("h_thread", "bound=2", variant="tsan", sched=True),
+           R("h_loops_mt", "bound=3", variant="tsan", sched=True),
+           R("h_wait", "bound=1 steps=3", variant="tsan", sched=True),
+           R("h_signal", "bound=1 steps=2", variant="tsan", sched=True)],
     thorough=[R("h_event_mt", "bound=2 transports=0-4 hacts=1", variant="tsan", sched=True),
               R("h_raw", "bound=4", variant="tsan", sched=True),
               R("h_work", "bound=2 methods=0,2 maxthreads=2", variant="tsan", sched=True),
-              R("h_thread", "bound=4", variant="tsan", sched=True)],
+              R("h_thread", "bound=4", variant="tsan", sched=True),
+              R("h_loops_mt", "bound=4 cycles=2", variant="tsan", sched=True),
+              R("h_wait", "bound=1 steps=6", variant="tsan", sched=True),
+              R("h_signal", "bound=2 steps=3", variant="tsan", sched=True)],
     rule="the multi-threaded scenario programs of C08-C13 under every schedule within the preemption bound, library built with "
          "-fsanitize=thread; an execution is one schedule; distinct = distinct observation traces",
     explanation="exhaustive schedule enumeration supplies the schedules in which conflicting accesses actually execute; on each one the "
@@ -415,6 +421,7 @@ CHECKS["C18"] = dict(
         R("h_work", "bound=1 methods=0,3 progs=1,4,5 puts=0,3", sched=True),
         R("h_event_mt", "bound=1 transports=0-3 hacts=1 p1=0,1,3 p2=0,1", sched=True),
         R("h_wait", "bound=1 steps=3", sched=True),
+        R("h_loops_mt", "bound=2 cycles=3", sched=True),
     ],
     thorough=[
         R("h_loop", "bound=2 cycles=2 seeds=%s,1,4,5,14,16 nfd=2 ntm=2 ntk=2 nev=1 nraw=1 nsig=1 nwk=1 rules=%s" % (ALL_SEEDS_C01, C18_RULES), share=0.5),
